@@ -3,7 +3,7 @@ import veccore
 from shapes import VEC, VECS, MATS, mat
 
 
-def vec_unit(exp, name, shapes, ops=('Add', 'Sub', 'Mul', 'Div'), extra=None):
+def vec_unit(exp, name, shapes, ops=('Add', 'Sub', 'Mul', 'Div'), extra=None, mats=()):
     """a unit with the vector core of the given shapes"""
     u = U.Unit(exp, name)
     types = []
@@ -13,6 +13,8 @@ def vec_unit(exp, name, shapes, ops=('Add', 'Sub', 'Mul', 'Div'), extra=None):
         types.append('crate::vec::repr_c::%s<crate::pre::R>' % sh.name)
         if extra:
             extra(u, sh)
+    for ms in mats:
+        types.append('%s<crate::pre::R>' % ms.q)
     u.add_root(veccore.into_axioms(types))
     u.module_prologue.append('broadcast use crate::group_into_refl;')
     return u
